@@ -1768,8 +1768,23 @@ func aliasesOf(v ssa.Value) []ssa.Value {
 // counterIncrement: the load ld of global g is used only to compute g's next value by adding
 // a constant (`g++`, `g += 2`): a counter whose value nothing on this path looks at.
 func counterIncrement(ld *ssa.UnOp, g *ssa.Global) bool {
+	// the counter is the variable itself or a field of it (`stats.Lines++`)
+	sameAddr := func(a ssa.Value) bool {
+		if a == ld.X {
+			return true
+		}
+		fa, ok1 := a.(*ssa.FieldAddr)
+		fb, ok2 := ld.X.(*ssa.FieldAddr)
+		return ok1 && ok2 && fa.Field == fb.Field && fa.X == fb.X
+	}
 	if ld.X != ssa.Value(g) {
-		return false
+		fa, ok := ld.X.(*ssa.FieldAddr)
+		if !ok || fa.X != ssa.Value(g) {
+			return false
+		}
+		if b, isB := ld.Type().Underlying().(*types.Basic); !isB || b.Info()&types.IsNumeric == 0 {
+			return false
+		}
 	}
 	var bo *ssa.BinOp
 	for _, u := range referrers(ld) {
@@ -1795,7 +1810,7 @@ func counterIncrement(ld *ssa.UnOp, g *ssa.Global) bool {
 		switch x := u.(type) {
 		case *ssa.DebugRef:
 		case *ssa.Store:
-			if x.Addr != ssa.Value(g) || x.Val != ssa.Value(bo) {
+			if !sameAddr(x.Addr) || x.Val != ssa.Value(bo) {
 				return false
 			}
 			n++
